@@ -5,6 +5,7 @@ import PdtVerif.Lemmas.NgramFlatCheck
 import PdtVerif.Lemmas.NgramRemap
 import PdtVerif.Lemmas.NgramShape
 import PdtVerif.Lemmas.NgramLevel
+import PdtVerif.Lemmas.NgramFlat
 import PdtVerif.Lemmas.NgramArpa
 /-!
 # C06 — the n-gram lookup model computes Katz back-off on any table
@@ -22,9 +23,11 @@ Layers:
 * `C06_idx_scalar`, `C06_idx_vec`, `C06_chunk`, `C06_full_eq_idx` – every evaluation route
   (scalar index, per-element indices, all positions in chunks of any size, one index at a
   time) evaluates the same row for the spec's left-padded context.
-* `C06_lookup_partial` – the two combined *given* that the flat buffers represent the
-  table (`C06_flat`, not proved: that layer is carried by the element-by-element buffer
-  correspondence).
+* `C06_lookup_partial` / `C06_lookup_checked` – the two combined *given* that the flat buffers
+  represent the table / pass the executable layout check.
+* `C06_flat` – they always do: for every table `buildTrie` accepts, the buffers it lays out pass
+  the check (`C06_closure`, `C06_levels_layout`, `C06_child_scan` are its pieces), hence
+  `C06_lookup` / `C06_model`: rows of the model = Katz recursion on the raw table, unconditionally.
 -/
 namespace PdtVerif.NgramTrie
 open PdtVerif.Backoff
@@ -156,7 +159,7 @@ theorem C06_chunk_layout_counterexample :
 
 /-! ## the flat-buffer layer -/
 
-/-- **C06_lookup_partial.** Given the flat-buffer layer as a hypothesis (`hflat`: the buffers
+/-- **C06_lookup_partial.** (Superseded by `C06_lookup`, kept as the bridge.) Given the flat-buffer layer as a hypothesis (`hflat`: the buffers
 navigate as a reverse trie of `tbl`, up to what a model of order `b.N` looks at), a row of
 the model is the Katz recursion on the table for the remapped window. (An earlier version
 asked for the unrestricted `Represents`, which real buffers cannot satisfy: the nodes of the
@@ -279,27 +282,128 @@ theorem C06_level_offsets (U : Nat) (isTop : Bool) (d : List Item) (f : Fill) (l
   rw [fillLevel_offsets]
   exact ⟨h.1, h.2.1, h.2.2.1⟩
 
-/-
-TARGET (not proved): C06_flat —
-  for every table `dicts` (keys pairwise distinct within an order) with
-  `buildTrie V sos dicts = some b`:  `checkBuilt V sos dicts b = true`
-i.e. the buffers that `buildTrie` lays out (suffix closure, reversed-key merge sort, dummy
-nodes, walk-back / trailing offset fill) always pass the layout check: children of node `i`
-are `[i + offsets[i], i + 1 + offsets[i+1])`, at most `S` of them, with pairwise distinct
-ids, carrying the table's values. With `C06_lookup_checked` this would make the end-to-end
-statement unconditional. Today the check is *evaluated* instead: the driver runs `checkBuilt`
-on the buffers built for every generated case (and the buffers are compared with the
-implementation's element by element), so `C06_lookup_checked` applies to every case of every
-run, but not – by proof – to all tables.
-Proved towards it: `C06_level_offsets` (the offsets of one level, given that the parents'
-indices come in non-decreasing order) and `C06_shape_roundtrip` (the dummy cells / level
-structure). Remaining: (a) the reversed-key insertion sort yields a sorted level and the
-suffix closure + `parents` dictionary then give non-decreasing parent indices inside the
-parent level; (b) the frame of `ids`/`logps`/`logbs` (each node's cells written once);
-(c) the scan of `flatNav.child` over `S = max_direct_descendants` slots finds the unique
-child (sibling ids distinct, `S ≥` every range width); (d) the closed table differs from the
-raw one only by `(-inf, 0)` entries.
--/
+/-! ### `C06_flat`: the flat-buffer layer, proved
+
+The former TARGET. Pieces: (a) the level sorted by reversed key has non-decreasing parent
+indices, (b) every node's cells are written once and never again – both in `C06_levels_layout`;
+(c) the scan over `max_direct_descendants` slots finds the unique child – `C06_child_scan`;
+(d) the closed table differs from the raw one only by `(-inf, 0)` entries – `C06_closure`. -/
+
+/-- **C06_child_scan** (piece c). On a laid-out level (`LevelOK`: parents `K` at `lo, lo+1, …`,
+their children `S` behind the dummy cell, `ps` the non-decreasing parents' indices) the scan of
+`_lookup_calc_idx_log_probs` over `S = max_direct_descendants` slots – matches *summed* – from
+the parent with reversed key `r` and the token `t` returns the node with key `r ++ [t]`, or
+nothing when there is none: sibling ids are pairwise distinct and no block is wider than `b.S`. -/
+theorem C06_child_scan (b : Buffers) (U lo : Nat) (K : List (List Int)) (S : List Item) (ps : List Nat)
+    (isTop : Bool) (L : LevelOK b.offsets b.ids b.logps b.logbs U lo K S ps isTop) (hK : K.Nodup)
+    (hS : ∀ q, lo ≤ q → q < lo + K.length →
+      ps.countP (fun x => decide (x < q + 1)) - ps.countP (fun x => decide (x < q)) ≤ b.S)
+    (j : Nat) (r : List Int) (hj : K[j]? = some r) (t : Int) :
+    (∀ k (hk : k < S.length), S[k].key = r ++ [t] →
+      (flatNav b U).child (lo + j) t = some (lo + K.length + 1 + k)) ∧
+    ((∀ e ∈ S, e.key ≠ r ++ [t]) → (flatNav b U).child (lo + j) t = none) :=
+  child_level b U lo K S ps isTop L hK hS j r hj t
+
+/-- **C06_levels_layout** (pieces a and b). The literal allocation loop of `_build_trie`
+(`fillLevels`: dummy write, `children` dictionary, one walk-back per node, trailing fill) on
+levels that are suffix-closed with pairwise distinct keys (`LevelsOK`) leaves every level laid
+out (`Layout`: offsets delimit the blocks of children – the parents' indices of a level sorted
+by reversed key are non-decreasing –, ids / log-probabilities / back-off weights of node `k` of
+a level sit at `start + 1 + k`), and never touches a cell below the first level again. -/
+theorem C06_levels_layout (U : Nat) (Ls : List (List Item)) (f : Fill) (lo : Nat) (K : List (List Int))
+    (m : Nat) (R : Ready f U lo K) (hL : LevelsOK m K Ls) (hne : Ls ≠ [])
+    (hO : f.offsets.size = f.allocated + need Ls)
+    (hP : f.logps.size = f.offsets.size + (Ls.getLastD []).length)
+    (hI : f.logps.size ≤ f.ids.size + U) (hB : f.logbs.size = f.offsets.size) :
+    Layout (fillLevels U Ls f).offsets (fillLevels U Ls f).ids (fillLevels U Ls f).logps
+      (fillLevels U Ls f).logbs U lo K (Ls.map sortLevel) ∧
+    (∀ q, q < lo → (fillLevels U Ls f).offsets.getD q 0 = f.offsets.getD q 0) ∧
+    (∀ i, i + U < f.allocated + 1 → (fillLevels U Ls f).ids.getD i 0 = f.ids.getD i 0) ∧
+    (∀ i, i < f.allocated →
+      (fillLevels U Ls f).logps.getD i LogP.nan = f.logps.getD i LogP.nan ∧
+      (fillLevels U Ls f).logbs.getD i LogP.nan = f.logbs.getD i LogP.nan) :=
+  fillLevels_layout U Ls f lo K m R hL hne hO hP hI hB
+
+/-- **C06_closure** (piece d). The closed, renamed levels against the raw table: an item of a
+closed level carries exactly what the raw table lists for its key – `(-inf, 0)` for the implicit
+suffix / unigram entries, whose keys the table does not list – and a key that no level holds is
+not listed. -/
+theorem C06_closure (V : Nat) (sos : Int) (dicts C : List (List Item)) (H : ClosedLv V sos dicts C)
+    (hnd : ∀ d ∈ dicts, keysNodup d) (hv : valsOK dicts = true) (k' : List Int) :
+    (∀ (j : Nat) (l : List Item) (e : Item),
+      (C.map (fun d => d.map (remapItem V sos)))[j]? = some l → e ∈ l → e.key = k' →
+      e.logp = LogP.ofOption (finiteP (ofList (remapTable V sos (tableOf dicts))) k') ∧
+      (k'.length < dicts.length →
+        e.logb = LogP.fin (beta (ofList (remapTable V sos (tableOf dicts))) k'))) ∧
+    ((∀ (j : Nat) (l : List Item) (e : Item),
+      (C.map (fun d => d.map (remapItem V sos)))[j]? = some l → e ∈ l → e.key ≠ k') →
+      ofList (remapTable V sos (tableOf dicts)) k' = none) :=
+  table_lemma V sos dicts C H hnd hv k'
+
+/-- **C06_flat.** For every table that `buildTrie` accepts – any order, any sparsity; the keys
+of one order pairwise distinct (they are the keys of a Python dict), no NaN log-probability
+and finite back-off weights below the highest order (`valsOK`) – the buffers it lays out pass
+the layout check: every node the lookup can reach carries the table's values and every listed
+key is reachable. (The driver still evaluates the check on every case; it can no longer fail.) -/
+theorem C06_flat (V : Nat) (sos : Int) (dicts : List (List Item)) (b : Buffers)
+    (hb : buildTrie V sos dicts = some b) (hnd : ∀ d ∈ dicts, keysNodup d)
+    (hv : valsOK dicts = true) : checkBuilt V sos dicts b = true :=
+  buildTrie_checkBuilt V sos dicts b hb hnd hv
+
+/-- **C06_lookup** – unconditional. Every row that the lookup model computes on the buffers
+built from a table is the Katz recursion on the **raw** table with the **raw** window, for
+every accepted table and every window of valid tokens (vocabulary ids and the start symbol). -/
+theorem C06_lookup (V : Nat) (sos : Int) (dicts : List (List Item)) (b : Buffers)
+    (hb : buildTrie V sos dicts = some b) (hnd : ∀ d ∈ dicts, keysNodup d)
+    (hv : valsOK dicts = true)
+    (win : List Int) (hlen : win.length + 1 ≤ b.N) (hwin : ∀ t ∈ win, validTok V sos t) :
+    rowOf b V sos win =
+      (List.range V).map (fun w => LogP.ofOption (bo (ofList (tableOf dicts)) (Int.ofNat w) win)) :=
+  C06_lookup_checked V sos dicts b (C06_flat V sos dicts b hb hnd hv)
+    (buildTrie_keys_valid V sos dicts b hb hnd) win hlen hwin
+
+/-- **C06_model.** End to end for the model: construct from a table, evaluate all positions of
+a batch of histories in chunks of any size – every entry `[t][b][w]` is the Katz recursion on
+the raw table for the spec's left-padded context of history `b` at position `t`. -/
+theorem C06_model (V : Nat) (sos : Int) (dicts : List (List Item)) (b : Buffers)
+    (hb : buildTrie V sos dicts = some b) (hnd : ∀ d ∈ dicts, keysNodup d)
+    (hv : valsOK dicts = true) (B : Nat) (hist : List (List Int))
+    (hrows : ∀ r ∈ hist, r.length = B) (htok : ∀ r ∈ hist, ∀ t ∈ r, validTok V sos t)
+    (chunk : Nat) (hchunk : 1 ≤ chunk) :
+    fullChunked b V sos B hist chunk =
+      (List.range (hist.length + 1)).map (fun t =>
+        (List.range B).map (fun bb =>
+          (List.range V).map (fun w => LogP.ofOption
+            (bo (ofList (tableOf dicts)) (Int.ofNat w) (context b.N sos (col hist bb) t))))) := by
+  rw [C06_chunk b V sos B hist hrows chunk hchunk]
+  have hN : 1 ≤ b.N := by
+    have h := (buildTrie_nodes V sos dicts b hb hnd hv).1
+    rw [buildTrie_eq] at hb
+    split at hb
+    · cases hb
+    · rename_i h0; omega
+  apply List.map_congr_left
+  intro t _
+  apply List.map_congr_left
+  intro bb hbb
+  have hbb' : bb < B := List.mem_range.mp hbb
+  apply C06_lookup V sos dicts b hb hnd hv
+  · unfold context lastN
+    simp only [List.length_drop, List.length_append, List.length_replicate]
+    omega
+  · intro x hx
+    unfold context lastN at hx
+    have hx' := List.mem_of_mem_drop hx
+    rcases List.mem_append.mp hx' with h | h
+    · rw [List.mem_replicate] at h
+      rw [h.2]; exact Or.inr rfl
+    · have h2 := List.mem_of_mem_take h
+      unfold col at h2
+      obtain ⟨r, hr, rfl⟩ := List.mem_map.mp h2
+      have hl := hrows r hr
+      apply htok r hr
+      rw [List.getD_eq_getElem?_getD, List.getElem?_eq_getElem (by omega)]
+      exact List.getElem_mem _
 
 /-! ## non-vacuity: the hypotheses are satisfiable on concrete, non-trivial inputs -/
 
@@ -369,6 +473,33 @@ theorem C06_lookup_checked_nonvacuous :
       rw [hN, hG] at h1
       exact h1
     · exact C06_lookup_checked 2 (-1) exDicts b hchk (by decide) [-1, 1] (by rw [hN]; decide) (by decide)
+
+/-- **All hypotheses of `C06_flat` / `C06_lookup` / `C06_model` together** on `exDicts`: the keys of
+every order are pairwise distinct, the values pass `valsOK`, `buildTrie` accepts the table – and
+the *theorem* (no evaluation of the check) gives the row of the window `<s> 1`, and all
+positions of the one-history batch `[1]` in one chunk. -/
+theorem C06_lookup_nonvacuous :
+    (∀ d ∈ exDicts, keysNodup d) ∧ valsOK exDicts = true ∧
+    ∃ b, buildTrie 2 (-1) exDicts = some b ∧ checkBuilt 2 (-1) exDicts b = true ∧
+      rowOf b 2 (-1) [-1, 1] = [LogP.fin (-3), LogP.negInf] ∧
+      (fullChunked b 2 (-1) 1 [[1]] 2).length = 2 := by
+  have hnd : ∀ d ∈ exDicts, keysNodup d := by
+    intro d hd
+    simp only [exDicts, List.mem_cons, List.mem_nil_iff, or_false] at hd
+    rcases hd with rfl | rfl | rfl <;> (unfold keysNodup; decide)
+  have hv : valsOK exDicts = true := by decide
+  refine ⟨hnd, hv, ?_⟩
+  cases hb : buildTrie 2 (-1) exDicts with
+  | none =>
+    have : (buildTrie 2 (-1) exDicts).isSome = true := by decide +kernel
+    rw [hb] at this; cases this
+  | some b =>
+    refine ⟨b, rfl, C06_flat 2 (-1) exDicts b hb hnd hv, ?_, ?_⟩
+    · have hN : b.N = 3 := (C06_shape_roundtrip 2 (-1) exDicts b hb (hnd _ (by simp [exDicts]))).2.1
+      rw [C06_lookup 2 (-1) exDicts b hb hnd hv [-1, 1] (by rw [hN]; decide) (by decide)]
+      decide +kernel
+    · rw [C06_model 2 (-1) exDicts b hb hnd hv 1 [[1]] (by decide) (by decide) 2 (by decide)]
+      simp
 
 /-- A bigram window in which two back-offs are actually taken, through the theorem:
 `P(0 | 0 0)`: `(0,0,0)` and `(0,0)` are not listed, `β(0,0) = 0` (implicit suffix node of
